@@ -139,6 +139,18 @@ def c01(res):
     graphs += [force_sentinel(gg.random_graph(rng, "F2-%d" % i)) for i in range(250 if q else 4000)]
     graphs += [force_sentinel(gg.random_forest(rng, "F3-%d" % i)) for i in range(60 if q else 800)]
     graphs += [force_sentinel(gg.random_graph(rng, "F2b-%d" % i, 9, 14)) for i in range(40 if q else 600)]
+    # property lists WITHOUT an always-true sentinel: what keeps the checker exploring is an eventually-property that
+    # never gets a counterexample (it holds everywhere), possibly next to properties that are discovered at once
+    for i in range(200 if q else 3000):
+        g = gg.random_graph(rng, "F2e-%d" % i, 3, 10, sentinel=False)
+        n = g["n"]
+        props = [dict(kind="eventually", name="ev", sat=list(range(1, n + 1)))]
+        if rng.random() < 0.5:
+            props.insert(rng.randint(0, 1), dict(kind="sometimes", name="start", sat=list(g["init"])))
+        if rng.random() < 0.3:
+            props.append(dict(kind="eventually", name="ev2", sat=list(range(1, n + 1))))
+        g["props"] = props
+        graphs.append(g)
     threads = [1, 2, 3] if q else [1, 2, 3, 4, 8, 16]
 
     def cfgs(i, g):
